@@ -49,6 +49,7 @@ const (
 )
 
 func runC05(c *Ctx) {
+	c05SetRoles(c, "C05.anchors", "vr.base", "vr.verifier", "vr.verified", "vr.err", "cas.content", "file.digestToPath", "file.status.exists")
 	c05R1Verify(c)
 	c05R1Wiring(c)
 	c05R1Consumers(c)
@@ -100,9 +101,10 @@ func c05R1Verify(c *Ctx) {
 			have[st.Field(i).Name()] = true
 		}
 	}
-	for _, f := range []string{"base", "verifier", "verified", "err"} {
-		if !have[f] {
-			c.LostAnchor(R, c05VRType+"."+f)
+	fBase, fVerifier, fVerified, fErr := c05Cur.F("vr.base"), c05Cur.F("vr.verifier"), c05Cur.F("vr.verified"), c05Cur.F("vr.err")
+	for _, f := range []string{fBase, fVerifier, fVerified, fErr} {
+		if f == "" || !have[f] {
+			c.LostAnchor(R, c05VRType+": the four state fields (limited reader, digest verifier, verified flag, sticky error) are no longer identifiable by type")
 			return
 		}
 	}
@@ -114,14 +116,14 @@ func c05R1Verify(c *Ctx) {
 	var vEdges []Edge
 	for _, i := range Ifs(fn) {
 		cond, t, _ := ifEdges(i)
-		if c05LoadPath(cond) == recv+".verified*" {
+		if c05LoadPath(cond) == recv+"."+fVerified+"*" {
 			vEdges = append(vEdges, t)
 		}
 	}
-	n0Edges, _ := c05NotPositiveEdges(fn, isPath(recv+".base*.N*"))
-	eofEdges, _ := c05EqEdges(fn, isPath(recv+".err*"), func(v ssa.Value) bool { return c05IsGlobalLoad(v, "io.EOF") })
+	n0Edges, _ := c05NotPositiveEdges(fn, isPath(recv+"."+fBase+"*.N*"))
+	eofEdges, _ := c05EqEdges(fn, isPath(recv+"."+fErr+"*"), func(v ssa.Value) bool { return c05IsGlobalLoad(v, "io.EOF") })
 	// trailing-data probe: a read of vr.base.R (directly, through the ensureEOF-role helper, or through a method of vr that does so)
-	eEdges, probes, undec := c05ProbeEdges(c, R, fn, func(v ssa.Value) bool { return c05LoadPath(v) == recv+".base*.R*" }, fn.Params[0], 0)
+	eEdges, probes, undec := c05ProbeEdges(c, R, fn, func(v ssa.Value) bool { return c05LoadPath(v) == recv+"."+fBase+"*.R*" }, fn.Params[0], 0)
 	if undec != "" {
 		c.Undecided(R, tn+"|trailing-data-probe", fn.Pos(), undec)
 	} else if probes == 0 {
@@ -133,7 +135,7 @@ func c05R1Verify(c *Ctx) {
 	dEdges := c05OwnerEventEdges(fn, fn.Params[0], func(g *ssa.Function, owner *ssa.Parameter) []Edge {
 		var out []Edge
 		for _, call := range CallsTo(g, "(digest.Verifier).Verified") {
-			if c05LoadPath(call.Common().Value) != "P:"+owner.Name()+".verifier*" {
+			if c05LoadPath(call.Common().Value) != "P:"+owner.Name()+"."+fVerifier+"*" {
 				continue
 			}
 			if v := call.Value(); v != nil {
@@ -197,7 +199,7 @@ func c05R1Verify(c *Ctx) {
 	}
 	// the verified flag: set only after the same checks, and only here
 	flagStores := 0
-	for _, u := range c05FieldUses(c05ModuleFuncs(c.P), c05VRType, "verified") {
+	for _, u := range c05FieldUses(c05ModuleFuncs(c.P), c05VRType, fVerified) {
 		st, isStore := u.Use.(*ssa.Store)
 		if !isStore {
 			continue
@@ -227,7 +229,7 @@ func c05R1Verify(c *Ctx) {
 	}
 	// Verify itself records io.EOF in vr.err only after the same checks (a second Verify() trusts it)
 	okRec, badRec := true, ""
-	for _, u := range c05FieldUses([]*ssa.Function{fn}, c05VRType, "err") {
+	for _, u := range c05FieldUses([]*ssa.Function{fn}, c05VRType, fErr) {
 		st, isStore := u.Use.(*ssa.Store)
 		if !isStore {
 			continue
@@ -258,7 +260,7 @@ func c05R1Verify(c *Ctx) {
 	// writers of vr.err: frozen inventory
 	allowed := map[string]bool{"(*~/content.VerifyReader).Read": true, "(*~/content.VerifyReader).Verify": true, "~/content.NewVerifyReader": true}
 	writers := map[string]token.Pos{}
-	for _, u := range c05FieldUses(c05ModuleFuncs(c.P), c05VRType, "err") {
+	for _, u := range c05FieldUses(c05ModuleFuncs(c.P), c05VRType, fErr) {
 		if st, isStore := u.Use.(*ssa.Store); isStore {
 			writers[FnName(u.Fn)] = st.Pos()
 		}
@@ -370,7 +372,7 @@ func c05ProbeEdges(c *Ctx, R string, fn *ssa.Function, isReader func(v ssa.Value
 		case ownIdx >= 0 && g != nil && len(g.Blocks) > 0 && c05Helper(call, fn) != nil && depth < 3 && ownIdx < len(g.Params) && ErrResultIndex(g.Signature) >= 0:
 			// a method of the reader's owner: look for the probe inside
 			op := g.Params[ownIdx]
-			path := "P:" + op.Name() + ".base*.R*"
+			path := "P:" + op.Name() + "." + c05Cur.F("vr.base") + "*.R*"
 			inner := func(v ssa.Value) bool { return c05LoadPath(v) == path }
 			_, n, _ := c05ProbeEdges(c, R, g, inner, op, depth+1)
 			if n == 0 {
@@ -455,7 +457,7 @@ func c05R1Read(c *Ctx, R string) {
 	tn := FnName(fn)
 	recvSym := "P:" + fn.Params[0].Name()
 	stores := 0
-	for _, u := range c05FieldUses([]*ssa.Function{fn}, c05VRType, "err") {
+	for _, u := range c05FieldUses([]*ssa.Function{fn}, c05VRType, c05Cur.F("vr.err")) {
 		st, isStore := u.Use.(*ssa.Store)
 		if !isStore {
 			continue
@@ -477,7 +479,7 @@ func c05R1Read(c *Ctx, R string) {
 			if f, known := p.st.facts[c05EqKey(p.st.symOf(v), "g:io.EOF")]; known && !f {
 				continue
 			}
-			nsym := p.st.loadPathSym(recvSym, "base", "N")
+			nsym := p.st.loadPathSym(recvSym, c05Cur.F("vr.base"), "N")
 			if f, known := p.st.facts["lt(const:0,"+nsym+")"]; known && !f {
 				continue
 			}
@@ -579,9 +581,9 @@ func c05R1Wiring(c *Ctx) {
 			c.Undecided(R, tn+"|returned-value", a.Ret.Pos(), "NewVerifyReader returns "+describe(a.Val)+": not a fresh VerifyReader literal")
 			continue
 		}
-		base := fieldStore(al, "base")
+		base := fieldStore(al, c05Cur.F("vr.base"))
 		if base == nil {
-			e := fieldStore(al, "err")
+			e := fieldStore(al, c05Cur.F("vr.err"))
 			ok := e != nil && ErrNilStatus(e, 0) == NonNil
 			poisoned++
 			c.Check(R, tn+"|reader-without-verifier-is-poisoned", a.Ret.Pos(), ok,
@@ -590,7 +592,7 @@ func c05R1Wiring(c *Ctx) {
 		}
 		wired++
 		lr, _ := strip(base).(*ssa.Alloc)
-		verifier := fieldStore(al, "verifier")
+		verifier := fieldStore(al, c05Cur.F("vr.verifier"))
 		var n, r ssa.Value
 		if lr != nil {
 			n, r = fieldStore(lr, "N"), fieldStore(lr, "R")
@@ -836,7 +838,7 @@ func c05R2Memory(c *Ctx) {
 	root := c05Root(fn)
 	n := 0
 	for _, e := range c05TreeEnvs(root, 3) {
-		for _, u := range c05FieldUses([]*ssa.Function{e.Fn}, "~/internal/cas.Memory", "content") {
+		for _, u := range c05FieldUses([]*ssa.Function{e.Fn}, "~/internal/cas.Memory", c05Cur.F("cas.content")) {
 			call, ok := u.Use.(ssa.CallInstruction)
 			if !ok || !c05SyncMapWriters[CalleeName(call)] {
 				continue
@@ -1159,7 +1161,12 @@ func c05IngestRole(c *Ctx, R string, g *ssa.Function, desc, rd *ssa.Parameter, p
 		if !isC || CalleeName(ct) != "os.CreateTemp" {
 			continue
 		}
-		why = c05IngestDirOK(c05ModuleFuncs(c.P), ct.Call.Args[0])
+		why = ""
+		for _, src := range c05ArgSources(c.P.FuncsOfPkg("content/oci"), g, ct.Call.Args[0], 0) {
+			if w := c05IngestDirOK(c05ModuleFuncs(c.P), src.V); w != "" {
+				why = w
+			}
+		}
 		okTmp = why == ""
 	}
 	c.Check(R, gn+"|temp-file-outside-blobs", g.Pos(), okTmp,
@@ -1178,7 +1185,7 @@ func c05R2File(c *Ctx) {
 		if len(cbs) == 0 {
 			continue
 		}
-		for _, u := range c05FieldUses([]*ssa.Function{f}, "~/content/file.Store", "digestToPath") {
+		for _, u := range c05FieldUses([]*ssa.Function{f}, "~/content/file.Store", c05Cur.F("file.digestToPath")) {
 			call, ok := u.Use.(ssa.CallInstruction)
 			if !ok || !c05SyncMapWriters[CalleeName(call)] {
 				continue
@@ -1334,7 +1341,7 @@ func c05ExistsWriters(c *Ctx, pushSide bool) []*ssa.Function {
 	var out []*ssa.Function
 	for _, f := range c.P.FuncsOfPkg("content/file") {
 		writes := false
-		for _, u := range c05FieldUses([]*ssa.Function{f}, "~/content/file.nameStatus", "exists") {
+		for _, u := range c05FieldUses([]*ssa.Function{f}, c05Cur.T("file.nameStatus"), c05Cur.F("file.status.exists")) {
 			if st, isStore := u.Use.(*ssa.Store); isStore {
 				if k, ok := st.Val.(*ssa.Const); !ok || k.Value == nil || k.Value.String() != "false" {
 					writes = true
@@ -1364,7 +1371,7 @@ func c05ExistsAfterSuccess1(c *Ctx, R string, f *ssa.Function) {
 		if !c05SyncMapWriters[n] || len(call.Common().Args) == 0 {
 			return false
 		}
-		return c05IsFieldAddrOf(call.Common().Args[0], "~/content/file.Store", "digestToPath")
+		return c05IsFieldAddrOf(call.Common().Args[0], "~/content/file.Store", c05Cur.F("file.digestToPath"))
 	}
 	var producers []ssa.CallInstruction
 	for _, call := range Calls(f, func(string) bool { return true }) {
@@ -1376,7 +1383,7 @@ func c05ExistsAfterSuccess1(c *Ctx, R string, f *ssa.Function) {
 		}
 	}
 	n := 0
-	for _, u := range c05FieldUses([]*ssa.Function{f}, "~/content/file.nameStatus", "exists") {
+	for _, u := range c05FieldUses([]*ssa.Function{f}, c05Cur.T("file.nameStatus"), c05Cur.F("file.status.exists")) {
 		st, isStore := u.Use.(*ssa.Store)
 		if !isStore {
 			continue
@@ -1426,13 +1433,6 @@ func c05IsInnerPush(call ssa.CallInstruction) (desc ssa.Value, ok bool) {
 func c05IsOCIDescriptor(t types.Type) bool {
 	n, ok := t.(*types.Named)
 	return ok && n.Obj().Name() == "Descriptor" && n.Obj().Pkg() != nil && strings.HasSuffix(n.Obj().Pkg().Path(), "image-spec/specs-go/v1")
-}
-
-// c05PostPushEffects: state changes a store front-end performs besides the inner Push.
-var c05PostPushEffects = map[string]bool{
-	"(*~/internal/graph.Memory).Index": true, "(*~/internal/graph.Memory).IndexAll": true, "(*~/content/oci.Store).tag": true,
-	"(~/content.Tagger).Tag": true, "(*~/internal/resolver.Memory).Tag": true, "(*~/content/file.Store).restoreDuplicates": true,
-	"(*~/content/oci.Store).saveIndex": true,
 }
 
 func c05R2Wrappers(c *Ctx) {
@@ -1536,7 +1536,7 @@ func c05Wrappers(c *Ctx, R string, refusalOnly bool) {
 			okR, detail := true, ""
 			var tol []string
 			if x.pkg == "content/file" {
-				tol = []string{"~/content/file.errSkipUnnamed"}
+				tol = c05SkipSentinels(c.P)
 			}
 			seen := map[ssa.Instruction]bool{}
 			for _, h := range hits {
@@ -1549,7 +1549,7 @@ func c05Wrappers(c *Ctx, R string, refusalOnly bool) {
 						continue
 					}
 					seen[call.(ssa.Instruction)] = true
-					r := ErrFlow(call, ErrFlowOpts{Tolerated: tol})
+					r := c05ErrFlow(call, ErrFlowOpts{Tolerated: tol})
 					if !r.OK {
 						okR, detail = false, r.Detail
 					} else if detail == "" {
@@ -1680,10 +1680,10 @@ func c05R3(c *Ctx) {
 		return out
 	}
 	// (a) cas.Memory.content: written only by the atomic LoadOrStore below Push
-	c05MapInventory(c, R, all, "~/internal/cas.Memory", "content", map[string]bool{"(*sync.Map).LoadOrStore": true},
+	c05MapInventory(c, R, all, "~/internal/cas.Memory", c05Cur.F("cas.content"), map[string]bool{"(*sync.Map).LoadOrStore": true},
 		tree("internal/cas", "Memory.Push"), nil, "(*~/internal/cas.Memory).Push")
 	// (b) file.Store.digestToPath: written below Push (with a verified copy in the same function, R2) and below Add (provenance check)
-	c05MapInventory(c, R, all, "~/content/file.Store", "digestToPath", map[string]bool{"(*sync.Map).Store": true, "(*sync.Map).LoadOrStore": true},
+	c05MapInventory(c, R, all, "~/content/file.Store", c05Cur.F("file.digestToPath"), map[string]bool{"(*sync.Map).Store": true, "(*sync.Map).LoadOrStore": true},
 		tree("content/file", "Store.Push"), tree("content/file", "Store.Add"), "(*~/content/file.Store).Push")
 	c05AddProvenance(c, R)
 	// (c) names under blobs/
@@ -1756,13 +1756,15 @@ func c05AddProvenance(c *Ctx, R string) {
 		if len(c05CopyCalls(f)) > 0 {
 			continue // saveFile role, handled by R2
 		}
-		for _, u := range c05FieldUses([]*ssa.Function{f}, "~/content/file.Store", "digestToPath") {
+		for _, u := range c05FieldUses([]*ssa.Function{f}, "~/content/file.Store", c05Cur.F("file.digestToPath")) {
 			call, ok := u.Use.(ssa.CallInstruction)
 			if !ok || !c05SyncMapWriters[CalleeName(call)] {
 				continue
 			}
 			fname := FnName(f)
-			key, val := strip(call.Common().Args[1]), strip(call.Common().Args[2])
+			kv, _ := c05Root(f).up(strip(call.Common().Args[1])) // through a descriptor literal that merely carries the digest
+			vv, _ := c05Root(f).up(strip(call.Common().Args[2]))
+			key, val := strip(kv), strip(vv)
 			okP, detail := false, "key "+describe(key)+" is not a digest the store computed over the recorded file"
 			switch k := key.(type) {
 			case *ssa.Extract: // digest.FromReader(fp) with fp = os.Open(path), value = path
@@ -1971,9 +1973,34 @@ func c05BlobsInventory(c *Ctx, R string) {
 					if !ok {
 						break
 					}
-					if fld := fieldOfFuncValue(s.V); strings.HasSuffix(fld, ".indexPath") {
-						role = "index.json (path held in Store.indexPath)"
-						continue
+					if fld := fieldOfFuncValue(s.V); fld != "" {
+						// a path kept in a field: every assignment of that field is Join(root, "index.json" / "oci-layout")
+						i := strings.LastIndex(fld, ".")
+						okFld, nSt := true, 0
+						for _, u := range c05FieldUses(all, fld[:i], fld[i+1:]) {
+							st, isStore := u.Use.(*ssa.Store)
+							if !isStore {
+								continue
+							}
+							nSt++
+							jc, isJoin := strip(st.Val).(*ssa.Call)
+							if !isJoin || (CalleeName(jc) != "path/filepath.Join" && CalleeName(jc) != "path.Join") {
+								okFld = false
+								continue
+							}
+							el := c05VariadicElems(variadicArg(jc))
+							seg, isK := "", false
+							if len(el) == 2 {
+								seg, isK = constString(el[1])
+							}
+							if !isK || (seg != "index.json" && seg != "oci-layout") {
+								okFld = false
+							}
+						}
+						if okFld && nSt > 0 {
+							role = "metadata file whose path is kept in " + fld
+							continue
+						}
 					}
 					good := false
 					for _, r := range Roots(s.V) {
@@ -2136,10 +2163,10 @@ func c05R4(c *Ctx) {
 					tol = []string{"~/errdef.ErrNotFound", "~/content/file.ErrDuplicateName"}
 				case root.Object() != nil && root.Object().Exported():
 					// Store.Push: unnamed content is discarded on request (IgnoreNoName)
-					tol = []string{"~/content/file.errSkipUnnamed"}
+					tol = c05SkipSentinels(c.P)
 				}
 			}
-			r := ErrFlow(call, ErrFlowOpts{Tolerated: tol})
+			r := c05ErrFlow(call, ErrFlowOpts{Tolerated: tol})
 			pos := call.Pos()
 			if !r.OK && r.At.IsValid() {
 				pos = r.At
@@ -2413,7 +2440,7 @@ func c05R5(c *Ctx) {
 					}
 				case n == "(*sync.Map).Load":
 					okKey := keyOfTarget(args[1]) || digestOfTarget(args[1])
-					published := c05IsFieldAddrOf(args[0], "~/internal/cas.Memory", "content") || c05IsFieldAddrOf(args[0], "~/content/file.Store", "digestToPath")
+					published := c05IsFieldAddrOf(args[0], "~/internal/cas.Memory", c05Cur.F("cas.content")) || c05IsFieldAddrOf(args[0], "~/content/file.Store", c05Cur.F("file.digestToPath"))
 					if okKey && published {
 						if okv := ResultOf(call, 1); okv != nil {
 							forward[okv] = true
@@ -2445,7 +2472,7 @@ func c05R5(c *Ctx) {
 							r = ta.X
 						}
 						if e, isE := r.(*ssa.Extract); isE && e.Index == 0 {
-							if lc, isC := e.Tuple.(*ssa.Call); isC && CalleeName(lc) == "(*sync.Map).Load" && c05IsFieldAddrOf(lc.Call.Args[0], "~/content/file.Store", "digestToPath") && digestOfTarget(lc.Call.Args[1]) {
+							if lc, isC := e.Tuple.(*ssa.Call); isC && CalleeName(lc) == "(*sync.Map).Load" && c05IsFieldAddrOf(lc.Call.Args[0], "~/content/file.Store", c05Cur.F("file.digestToPath")) && digestOfTarget(lc.Call.Args[1]) {
 								if r0 := ResultOf(call, 0); r0 != nil {
 									forward[r0] = true
 								}
@@ -2539,7 +2566,7 @@ func c05NameGateEdges(fn *ssa.Function, depth int) []Edge {
 		g := StaticCallee(call)
 		return g != nil && fnPkgPath(g) == pkgPath("content/file") && call.Value() != nil &&
 			g.Signature.Results().Len() == 1 && types.Identical(g.Signature.Results().At(0).Type(), types.Typ[types.Bool]) &&
-			len(c05FieldUses([]*ssa.Function{g}, "~/content/file.nameStatus", "exists")) > 0
+			len(c05FieldUses([]*ssa.Function{g}, c05Cur.T("file.nameStatus"), c05Cur.F("file.status.exists"))) > 0
 	}
 	for _, call := range Calls(fn, func(string) bool { return true }) {
 		if _, isDefer := call.(*ssa.Defer); isDefer {
@@ -2719,3 +2746,41 @@ func c05R5NotFound(c *Ctx) {
 		}
 	}
 }
+
+// c05SkipSentinels: the unexported package-level error variables of
+// content/file that the exported Store.Push compares its inner error with
+// (errors.Is / ==): the "discard unnamed content on request" signal.  An
+// exported sentinel (ErrDuplicateName, …) is never in this set.
+func c05SkipSentinels(p *Prog) []string {
+	fn := p.Fn("content/file", "Store.Push")
+	if fn == nil {
+		return nil
+	}
+	set := map[string]bool{}
+	AllInstrs(fn, func(in ssa.Instruction) {
+		var cands []ssa.Value
+		switch x := in.(type) {
+		case *ssa.Call:
+			if CalleeName(x) == "errors.Is" && len(x.Call.Args) == 2 {
+				cands = append(cands, x.Call.Args[1])
+			}
+		case *ssa.BinOp:
+			if x.Op == token.EQL || x.Op == token.NEQ {
+				cands = append(cands, x.X, x.Y)
+			}
+		}
+		for _, v := range cands {
+			u, ok := strip(v).(*ssa.UnOp)
+			if !ok {
+				continue
+			}
+			g, ok := u.X.(*ssa.Global)
+			if ok && fnPkgPathOfGlobal(g) == pkgPath("content/file") && !token.IsExported(g.Name()) && isErrorType(g.Type().(*types.Pointer).Elem()) {
+				set[short(g.Pkg.Pkg.Path()+"."+g.Name())] = true
+			}
+		}
+	})
+	return c05SortedKeys(set)
+}
+
+func fnPkgPathOfGlobal(g *ssa.Global) string { return g.Pkg.Pkg.Path() }
